@@ -55,6 +55,9 @@ Blame ==
   @@ "hb.phase.failed.cancel" :> {"C06"}
   @@ "oe.res.failed.timeout" :> {"C11", "C06", "C02"} @@ "oe.res.failed.panic" :> {"C06", "C02"} @@ "oe.res.failed.startErr" :> {"C06", "C02", "C03"}
   @@ "oe.res.failed.cancel" :> {"C06", "C02"}
+  \* (the result of awaiting the address of an actor that failed: C04's "Ok exactly when termination was graceful")
+  @@ "oe.res.failed.timeout.await" :> {"C11", "C06", "C02", "C04"} @@ "oe.res.failed.panic.await" :> {"C06", "C02", "C04"}
+  @@ "oe.res.failed.startErr.await" :> {"C06", "C02", "C03", "C04"} @@ "oe.res.failed.cancel.await" :> {"C06", "C02", "C04"}
   @@ "tf.state.failed" :> {"C10", "C06"} @@ "adv.pending.failed" :> {"C10", "C06"}
   @@ "exit.how"   :> {"C06"}
   @@ "exit.client.await" :> {"C04", "C02"} @@ "exit.client.await_ref" :> {"C04", "C02"} @@ "exit.client.halt" :> {"C04", "C02"} @@ "exit.client.try_halt" :> {"C04", "C02"}
@@ -71,6 +74,7 @@ Blame ==
   @@ "oe.done"    :> {"C08", "C14"}
   @@ "oe.res.register.entryfailed" :> {"C08", "C06"} @@ "oe.res.from_registry.entryfailed" :> {"C08", "C06"} @@ "oe.res.setup.entryfailed" :> {"C08", "C06"}
   @@ "oe.res.replace.entryfailed" :> {"C08", "C06"} @@ "oe.res.unregister.entryfailed" :> {"C08", "C06"}
+  @@ "oe.res.already_running.entryfailed" :> {"C08", "C06", "C14"} @@ "oe.res.try_from_registry.entryfailed" :> {"C08", "C06", "C14"}
   @@ "dn.miss"    :> {"C08", "C14"} @@ "dn.type" :> {"C08"} @@ "dn.lock" :> {"C08"}
   @@ "blk.reglock" :> {"C08"} @@ "blk.regping" :> {"C08"}
   @@ "oe.res.send" :> {"C12", "C02"}
